@@ -151,7 +151,6 @@ func (ex *Exchange) GetMatchedQueues(message *amqp.Message) (matchedQueues map[s
 		for _, bind := range ex.bindings {
 			if bind.MatchDirect(message.Exchange, message.RoutingKey) {
 				matchedQueues[bind.GetQueue()] = true
-				return
 			}
 		}
 	case ExTypeFanout:
